@@ -291,6 +291,14 @@ func (g *gen) authorize() {
 	case 3:
 		verifier = verifiers[r.Intn(len(verifiers))]
 		challenge, method = verifier, []string{"plain", ""}[r.Intn(2)]
+	case 4:
+		if g.bias == "C03" || r.Intn(3) == 0 {
+			// method spellings that are not a method: must be refused at the authorization endpoint, or a later
+			// exchange falls into the plain comparison
+			verifier = verifiers[r.Intn(len(verifiers))]
+			method = []string{"s256", "S256 ", "PLAIN", "sha256", "S-256", "Plain"}[r.Intn(6)]
+			challenge = []string{verifier, "H(" + verifier + ")"}[r.Intn(2)]
+		}
 	}
 	nonce := ""
 	if len(rts) > 1 || r.Intn(3) == 0 {
@@ -553,6 +561,20 @@ func (g *gen) advance() {
 func (g *gen) mutateClient() {
 	r := g.r
 	c := g.clients[r.Intn(len(g.clients))]
+	if g.bias == "C05" {
+		// narrow the registration of a client that holds a live refresh token, then refresh at once
+		var live []*gGrant
+		for _, gr := range g.grants {
+			if len(gr.rts) > 0 {
+				live = append(live, gr)
+			}
+		}
+		if len(live) > 0 {
+			gr := live[r.Intn(len(live))]
+			c = g.client(gr.client)
+			defer g.refresh(gr, 0)
+		}
+	}
 	switch r.Intn(4) {
 	case 0:
 		if len(c.scopes) > 1 {
@@ -778,7 +800,7 @@ func (g *gen) History(n int) {
 			g.introspect(g.anyToken())
 		case x < 92:
 			g.advance()
-		case x < 95:
+		case x < 95 || (g.bias == "C05" && x < 100 && r.Intn(3) == 0):
 			g.mutateClient()
 		default:
 			g.sweep()
